@@ -905,14 +905,15 @@ class BlobStorage(BlobStorageMixin):
         # the old data and silently drop the later change.
         tid = decodebytes(serial_id + b'\n')
         with self._lock:
-            pending = {oid for oid, _ in self.dirty_oids}
+            # (an earlier undo in this transaction may have changed it)
+            pending = dict(self.dirty_oids)
             for oid in self.fshelper.getOIDsForSerial(tid):
-                if oid in pending:
-                    continue    # changed by an earlier undo in this txn
-                try:
-                    ctid = self.__storage.getTid(oid)
-                except POSKeyError:
-                    continue
+                ctid = pending.get(oid)
+                if ctid is None:
+                    try:
+                        ctid = self.__storage.getTid(oid)
+                    except POSKeyError:
+                        continue
                 if ctid != tid and not self._same_blob_data(oid, tid, ctid):
                     raise UndoError(
                         "Some data were modified by a later transaction",
